@@ -151,7 +151,7 @@ class C10(Check):
     )
     assumptions = ["float-typed leaves representable in the target width", "tuples of length != 2 at union positions are not generated"]
     required_labels = ["expected:True", "expected:False", "strict", "raise_errors", "no-tuple-notation", "rejected-by-writer", "accepted-roundtrip",
-                       "mut:wrong-type", "mut:out-of-range", "mut:bool-for-int", "mut:wrong-fixed-size", "mut:unknown-symbol", "mut:non-string-key", "mut:missing-field", "mut:wrong-hint", "mut:wrong-type-hint", "strict-missing-nullable", "appending-writer", "logical-values", "logical-generated", "validate_many:several", "rejected-by-writer-function"]
+                       "mut:wrong-type", "mut:out-of-range", "mut:bool-for-int", "mut:wrong-fixed-size", "mut:unknown-symbol", "mut:non-string-key", "mut:missing-field", "mut:wrong-hint", "mut:wrong-type-hint", "strict-missing-nullable", "appending-writer", "logical-values", "logical-generated", "logical-by-name", "validate_many:several", "rejected-by-writer-function"]
     quick = (5000, 1)
     thorough = (10000, 16)
 
@@ -172,7 +172,7 @@ class C10(Check):
                 c = logicalcase.logical_union_case(d)
                 n2, t2 = M.resolve(c["schema"])
                 return {"schema": c["schema"], "datum": c["datum"], "mutation": None if S.conforms(n2, t2, c["datum"]) else "wrong-type", "strict": False, "raise_errors": d.p(0.5),
-                        "tuple_notation": True, "parsed": c["parsed"], "append": d.p(0.3), "logical": True, "logical_expect": S.conforms(n2, t2, c["datum"]), "generated": True}
+                        "tuple_notation": True, "parsed": c["parsed"], "append": d.p(0.3), "logical": True, "logical_expect": S.conforms(n2, t2, c["datum"]), "generated": True, "by_name_logical": c.get("by_name_logical", False)}
             ir, table, js = gen.build_schema(d, feat)
             gen.check_truth(ir, table, js)
             tn = not d.p(0.25)
@@ -225,6 +225,8 @@ class C10(Check):
             labels.add("logical-values")
             if case.get("generated"):
                 labels.add("logical-generated")
+            if case.get("by_name_logical"):
+                labels.add("logical-by-name")
             want = case["logical_expect"]
         else:
             want = B.conforms(node, table, datum, tuple_notation=tn, strict=strict)
